@@ -167,3 +167,18 @@ Definition G_ex : grammar :=
 Definition C_ex : cfg :=
   mkcfg EolLfCrlf (fun _ _ => AKApply false) (fun _ _ _ _ => ARet true) (fun _ _ _ => ARet true) (fun _ => true) (fun _ _ => false).
 Definition in_ex : list byte := [13; 10; 98; 10; 97; 10; 195; 169; 10; 13].
+
+(* ---------- the mask condition of head_ok is exact: whenever it fails for a uint8::mask_one / mask_not_one rule,
+   the one-byte input consisting of the eol character is matched and bumped with bump_in_this_line ---------- *)
+Lemma mask_exact e found m cs p :
+  test_one_set found cs (Z.of_N (eol_ch e)) = false ->
+  test_one_set found cs (Z.of_N (N.land (eol_ch e) m)) = true ->
+  eval_atom e (HOne found (PkMaskUint8 m) cs) (mkcur [eol_ch e] p)
+    = Some (Res Ok (mkcur [] (mkpos (pbyte p + 1) (pline p) (pcol p + 1))) []) /\
+  track (eol_ch e) p [eol_ch e] = mkpos (pbyte p + 1) (pline p + 1) 1.
+Proof.
+  intros H1 H2. split.
+  - cbn [eval_atom]. unfold peek_test_bump, do_peek, peek_uint8, rd, in_empty, peek_at. cbn [rest nth_error].
+    rewrite H2. unfold ch_as_data. rewrite H1. reflexivity.
+  - unfold track. simpl. unfold bump1_pos. rewrite N.eqb_refl. reflexivity.
+Qed.
